@@ -998,6 +998,11 @@ class SymArray:
         return key
 
     def __getitem__(self, key):
+        if isinstance(key, SymArray):
+            # fancy indexing a[idx_array] on a 1-d array: gather
+            if self.ndim != 1 or key.ndim != 1:
+                raise EngineError("fancy indexing is modelled for 1-d arrays only")
+            return SymArray([self[k] for k in key.cells_list()], key.shape, name=self.name + "[...]", dtype=self.dtype)
         key = self._key(key)
         if any(isinstance(k, slice) for k in key) or len(key) < self.ndim:
             off = self.offset
@@ -1455,7 +1460,21 @@ class NPShim:
         return out
 
     def argsort(self, a):
-        raise EngineError("argsort must be shimmed by the harness")
+        """argsort of a PERMUTATION of 0..n-1 is its inverse (the only use in this code base; the harness
+        assumes the argument is a permutation)"""
+        if not isinstance(a, SymArray):
+            return self._np.argsort(a)
+        vals = a.cells_list()
+        n = len(vals)
+        if not any(is_sym(v) for v in vals):
+            return SymArray([builtins.int(i) for i in self._np.argsort(self._np.array(vals))], (n,), name="argsort", dtype=INT64)
+        out = []
+        for v in range(n):
+            e = z3.IntVal(0)
+            for i in range(n):
+                e = z3.If(lift(vals[i]) == v, z3.IntVal(i), e)
+            out.append(mk(e))
+        return SymArray(out, (n,), name="argsort", dtype=INT64)
 
     def isfinite(self, v):
         if is_sym(v):
